@@ -272,6 +272,67 @@ def run_durations_cultures(job, ctx):
                 ctx.fail('%s:duration' % mech, where, key, {'culture': cu, 'query': q, 'reference': R0.isoformat(), 'want': want, 'cls': 'duration|' + sg}, want, {'entities': obs})
 
 
+TIME_RANGE_TEMPLATES = {
+    'fr-fr': ['de {a} à {b}', 'entre {a} et {b}'], 'pt-br': ['entre {a} e {b}', 'das {a} às {b}'], 'it-it': ['tra le {a} e le {b}', 'dalle {a} alle {b}'],
+    'es-es': ['entre las {a} y las {b}', 'de {a} a {b}'], 'nl-nl': ['tussen {a} en {b}', 'van {a} tot {b}'],
+    'en-us': ['between {a} and {b}', 'from {a} to {b}', 'between noon and {b12}', 'from {a12} to noon', 'from {a12} to midnight'],
+}
+EXACT_ENDPOINTS = ('es-es', 'nl-nl', 'en-us')     # cultures whose reading of two HH:MM endpoints is the endpoints as written
+
+
+def run_timeranges_cultures(job, ctx):
+    """clock-time ranges in six cultures over all minute spans: judged by the triple monitor (start/end/duration agree);
+    where the culture reads HH:MM endpoints literally also by the endpoints"""
+    cu = job['culture']
+    m = dtlib.dt_model(cu)
+    r = ctx.rng('c10:tr:' + cu)
+    spans = [(h1, m1, h2, m2) for h1 in range(0, 23) for m1 in (0, 7, 10, 57) for h2 in range(h1 + 1, 24) for m2 in (0, 5, 12, 16, 25, 29)]
+    if ctx.tier == 'quick':
+        spans = r.sample(spans, 260)
+    extra = 200 if ctx.tier == 'quick' else 4000
+    for _ in range(extra):
+        h1 = r.randrange(0, 23)
+        spans.append((h1, r.randrange(60), r.randrange(h1 + 1, 24), r.randrange(60)))
+
+    def h12(h, mi):
+        return '%d:%02d%s' % (h % 12 or 12, mi, 'am' if h < 12 else 'pm')
+    for h1, m1, h2, m2 in spans:
+        a, b = '%02d:%02d' % (h1, m1), '%02d:%02d' % (h2, m2)
+        if cu == 'fr-fr' and r.random() < 0.5:
+            a, b = '%dh%02d' % (h1, m1), '%dh%02d' % (h2, m2)
+        for t in TIME_RANGE_TEMPLATES[cu]:
+            if '{a12}' in t and not (h1 < 12):
+                continue
+            if '{b12}' in t and not (h2 > 12):
+                continue
+            q = t.format(a=a, b=b, a12=h12(h1, m1), b12=h12(h2, m2))
+            where = {'model': 'DateTimeModel', 'culture': cu, 'cls': 'timerange|' + t}
+            key = '%s|%s' % (cu, q)
+            case = {'culture': cu, 'query': q, 'reference': R0.isoformat(), 'cls': 'timerange|' + t}
+            try:
+                res = m.parse(q, R0)
+            except Exception as e:
+                ctx.observe(key=key, cell=cu + ':timerange')
+                ctx.fail('exception', where, key, case, None, repr(e))
+                continue
+            ctx.event('boundary_calls')
+            ntr = 0
+            for e in res:
+                for v in dtlib.vals(e):
+                    prob, is_triple = triple_problem(v)
+                    if is_triple:
+                        ntr += 1
+                        ctx.event('triple_timex_checked')
+                    if prob:
+                        ctx.fail('triple:' + prob, where, key, case, 'consistent (start,end,duration)', v)
+            ctx.observe(key=key, nontrivial=ntr > 0, cell=cu + ':timerange', sample={'culture': cu, 'query': q, 'observed': dtlib.view(res)} if ntr else None)
+            if cu in EXACT_ENDPOINTS and '{a}' in t and '{b}' in t:
+                want = {'start': '%02d:%02d:00' % (h1, m1), 'end': '%02d:%02d:00' % (h2, m2)}
+                ok = len(res) == 1 and res[0].type_name == 'datetimeV2.timerange' and any(v.get('start') == want['start'] and v.get('end') == want['end'] for v in dtlib.vals(res[0]))
+                if not ok:
+                    ctx.fail('wrong-range-endpoints:timerange', where, key, dict(case, want=want), want, {'entities': dtlib.view(res)})
+
+
 def run_triple(job, ctx):
     from rtmon import lib
     cu = job['culture']
@@ -304,6 +365,7 @@ def run_triple(job, ctx):
 def plan(tier, seed):
     jobs = [{'name': p, 'kind': 'gen', 'part': p} for p in ('duration', 'daterange', 'timerange')]
     jobs += [{'name': 'dur-' + cu, 'kind': 'durcult', 'culture': cu} for cu in sorted(CULT_UNITS)]
+    jobs += [{'name': 'tr-' + cu, 'kind': 'trcult', 'culture': cu} for cu in sorted(TIME_RANGE_TEMPLATES)]
     for cu in dtlib.DT_CULTURES:
         sh = 4 if cu == 'en-us' else 1
         if tier == 'thorough' and cu == 'en-us':
@@ -314,7 +376,7 @@ def plan(tier, seed):
 
 
 def run(job, ctx):
-    {'gen': run_gen, 'triple': run_triple, 'durcult': run_durations_cultures}[job['kind']](job, ctx)
+    {'gen': run_gen, 'triple': run_triple, 'durcult': run_durations_cultures, 'trcult': run_timeranges_cultures}[job['kind']](job, ctx)
 
 
 def replay_case(fail, ctx):
